@@ -519,6 +519,15 @@ class FakeSocket:
             raise AssertionError("send on closed socket %d" % self.idx)
         if self.reset:
             raise BrokenPipeError(errno.EPIPE, "Broken pipe")
+        if self.server is not None and self.server.shaken:
+            # scripted write fault in the frame phase: spec["send_fault"] = {index of the write after the handshake: "timeout" | "epipe"}
+            i = self.frame_sends = getattr(self, "frame_sends", -1) + 1
+            fault = (self.server.spec.get("send_fault") or {}).get(i)
+            if fault is not None:
+                self.log.append(("send-fault", fault, self.k.now))
+                if fault == "timeout":
+                    raise _socket.timeout("timed out")
+                raise BrokenPipeError(errno.EPIPE, "Broken pipe")
         self.log.append(("send", len(data), self.k.now))
         self.sent_pieces.append((self.k.now, data))
         self.sent = self.sent + data if len(self.sent) else data
